@@ -558,3 +558,154 @@ Section Generic.
     intros e2 L2. pose proof (R e2 L2) as H2. split; [exact H2|]. apply rrender_pure, H2.
   Qed.
 End Generic.
+
+(* ------------------------------------------------------------------------------------------ *)
+(* which packages a rendering registers: exactly those of the leaves it renders                 *)
+Section Regs.
+  Variable St : Type.
+  Variable reg : St -> list bytes.          (* the registered paths of a state *)
+
+  Notation rs := (rs St).
+
+  Definition grows (e e1 : St) (F : list bytes) : Prop := forall p, In p (reg e1) <-> In p (reg e) \/ In p F.
+  Definition regs_ok (o : rs) (F : list bytes) : Prop := forall e t e1, o e = Ok (t, e1) -> grows e e1 F.
+
+  Lemma grows_refl : forall e, grows e e [].
+  Proof. intros e p. cbn. tauto. Qed.
+
+  Lemma grows_trans : forall e e1 e2 F1 F2, grows e e1 F1 -> grows e1 e2 F2 -> grows e e2 (F1 ++ F2).
+  Proof. intros e e1 e2 F1 F2 H1 H2 p. rewrite (H2 p), (H1 p), in_app_iff. tauto. Qed.
+
+  Lemma regs_ok_ext : forall a b F, eqr St a b -> regs_ok b F -> regs_ok a F.
+  Proof. intros a b F H R e t e1 Ha. rewrite H in Ha. eapply R; eauto. Qed.
+
+  Lemma regs_ok_ret : forall b, regs_ok (ret_st St b) [].
+  Proof. intros b e t e1 H. unfold ret_st in H. inversion H; subst. apply grows_refl. Qed.
+
+  Lemma regs_ok_panic : forall F, regs_ok (panic_st St) F.
+  Proof. intros F e t e1 H. discriminate. Qed.
+
+  Lemma regs_ok_emitr : forall o k F1 F2, regs_ok o F1 -> regs_ok k F2 -> regs_ok (emitr_st St o k) (F1 ++ F2).
+  Proof.
+    intros o k F1 F2 Ro Rk e t e2 H. unfold emitr_st in H.
+    destruct (o e) as [[a e1]| |] eqn:Eo; cbn [bind] in H; try discriminate.
+    destruct (k e1) as [[r e2']| |] eqn:Ek; cbn [bind] in H; try discriminate.
+    inversion H; subst. eapply grows_trans; eauto.
+  Qed.
+
+  Lemma regs_ok_emit : forall b k F, regs_ok k F -> regs_ok (emit_st St b k) F.
+  Proof.
+    intros b k F R. eapply regs_ok_ext; [apply emit_as_emitr|].
+    change F with ([] ++ F). apply regs_ok_emitr; [apply regs_ok_ret|exact R].
+  Qed.
+
+  Section SubstRegs.
+    Variable X : Type.
+    Variable G : X -> aview_st St.
+    Variable pk : X -> list bytes.
+
+    Definition view_regs (x : X) : Prop :=
+      match G x with
+      | AVNilS _ => pk x = []
+      | AVS _ isnil o => if isnil then pk x = [] else regs_ok o (pk x)
+      end.
+
+    Definition tok_pkgs (l : list (bytes * X)) (t : tok) : list bytes :=
+      match t with
+      | Hole n _ => match lookup n (map (fun p => (fst p, pk (snd p))) l) with Some x => x | None => [] end
+      | Lit _ => []
+      end.
+
+    Lemma lookup_all : forall (P : X -> Prop) l n x, Forall (fun p => P (snd p)) l -> lookup n l = Some x -> P x.
+    Proof. intros P l n x H E. exact (lookup_Forall P n l x H E). Qed.
+
+    Lemma subst_regs : forall l, Forall (fun p => view_regs (snd p)) l ->
+      forall ts, regs_ok (subst_st St (map (fun p => (fst p, G (snd p))) l) ts) (flat_map (tok_pkgs l) ts).
+    Proof.
+      intros l Hl. induction ts as [|t r IH]; [apply regs_ok_ret|]. cbn [subst_st flat_map].
+      apply regs_ok_emitr; [|exact IH]. destruct t as [c|n a]; cbn [piece_st tok_pkgs]; [apply regs_ok_ret|].
+      rewrite !lookup_map. destruct (lookup n l) as [x|] eqn:E; cbn [option_map]; [|apply regs_ok_panic].
+      pose proof (lookup_all view_regs l n x Hl E) as V. unfold view_regs in V.
+      destruct (G x) as [|isnil o]; [rewrite V; apply regs_ok_ret|].
+      destruct isnil; [rewrite V; apply regs_ok_ret|exact V].
+    Qed.
+  End SubstRegs.
+
+  Definition sview_regs (a : sview_st St) (pk : list bytes * list bytes) : Prop :=
+    match a with
+    | SVSnipS _ o => regs_ok o (fst pk) /\ regs_ok o (snd pk)
+    | SVRawS _ v t => regs_ok v (fst pk) /\ regs_ok t (snd pk)
+    end.
+
+  Lemma ssubst_regs : forall ts args pks, Forall2 sview_regs args pks ->
+    regs_ok (ssubst_st St ts args) (verb_pkgs ts pks).
+  Proof.
+    induction ts as [|t r IH]; intros args pks HR; [apply regs_ok_ret|]. cbn [ssubst_st verb_pkgs].
+    destruct t as [c| | | |c].
+    - apply regs_ok_emit, IH, HR.
+    - destruct HR as [|a pk ra rp Hab HR']; [apply regs_ok_panic|].
+      apply regs_ok_emitr; [|apply IH, HR']. unfold sview_regs in Hab. destruct a; tauto.
+    - destruct HR as [|a pk ra rp Hab HR']; [apply regs_ok_panic|].
+      apply regs_ok_emitr; [|apply IH, HR']. unfold sview_regs in Hab. destruct a; tauto.
+    - apply regs_ok_emit, IH, HR.
+    - apply regs_ok_panic.
+  Qed.
+
+  Variables leaf raw : Type.
+  Variable leaf_isnil : leaf -> bool.
+  Variable leaf_frag : leaf -> rs.
+  Variable raw_v raw_t : raw -> rs.
+  Variable leaf_pkgs : leaf -> list bytes.
+  Variable raw_v_pkgs raw_t_pkgs : raw -> list bytes.
+  Hypothesis leaf_regs : forall l, regs_ok (leaf_frag l) (leaf_pkgs l).
+  Hypothesis raw_v_regs : forall a, regs_ok (raw_v a) (raw_v_pkgs a).
+  Hypothesis raw_t_regs : forall a, regs_ok (raw_t a) (raw_t_pkgs a).
+
+  Notation rsnip := (rsnip leaf raw).
+  Notation risnil_of := (risnil_of leaf raw leaf_isnil).
+  Notation rfrag := (rfrag St leaf raw leaf_isnil leaf_frag raw_v raw_t).
+  Notation rrender := (rrender St leaf raw leaf_isnil leaf_frag raw_v raw_t).
+  Notation rrender_all := (rrender_all St leaf raw leaf_isnil leaf_frag raw_v raw_t).
+  Notation rpkgs := (rpkgs leaf raw leaf_isnil leaf_pkgs raw_v_pkgs raw_t_pkgs).
+  Notation rpkgs_render := (rpkgs_render leaf raw leaf_isnil leaf_pkgs raw_v_pkgs raw_t_pkgs).
+
+  Lemma rfrag_regs : forall s, regs_ok (rfrag s) (rpkgs s).
+  Proof.
+    induction s as [|b|f args IH|f args IH|a|v|d a|l IH|x IH|l] using (rsnip_ind' leaf raw);
+      cbn [RenderStack.rfrag RenderStack.rpkgs].
+    - apply regs_ok_panic.
+    - apply regs_ok_ret.
+    - eapply regs_ok_ext; [apply tpl_st_spec|].
+      apply (subst_regs rsnip (view_of_st St leaf raw leaf_isnil rfrag) (fun v => if risnil_of v then [] else rpkgs v)).
+      induction IH as [|p r Hp _ IHr]; [constructor|]. constructor; [|exact IHr].
+      unfold view_regs. destruct (snd p); cbn [RenderStack.view_of_st RenderStack.risnil_of] in *; try reflexivity; try exact Hp;
+        match goal with |- (if ?b then _ else _) => destruct b; [reflexivity|exact Hp] end.
+    - eapply regs_ok_ext; [apply sp_st_spec|]. apply ssubst_regs.
+      induction IH as [|p r Hp _ IHr]; cbn [map]; [constructor|]. constructor; [|exact IHr].
+      unfold sview_regs. destruct p; cbn [RenderStack.sview_of_st fst snd]; try (split; exact Hp).
+      split; [apply raw_v_regs|apply raw_t_regs].
+    - apply regs_ok_panic.
+    - apply regs_ok_ret.
+    - apply regs_ok_ret.
+    - induction IH as [|c r Hc _ IHr]; [apply regs_ok_ret|].
+      change (snippets_loop_st St leaf raw leaf_isnil rfrag (c :: r)) with
+        (if risnil_of c then snippets_loop_st St leaf raw leaf_isnil rfrag r
+         else emitr_st St (rfrag c) (snippets_loop_st St leaf raw leaf_isnil rfrag r)).
+      cbn [flat_map]. destruct (risnil_of c); [exact IHr|]. apply regs_ok_emitr; assumption.
+    - destruct (risnil_of x); [apply regs_ok_ret|exact IH].
+    - apply leaf_regs.
+  Qed.
+
+  Lemma rrender_regs : forall s, regs_ok (rrender s) (rpkgs_render s).
+  Proof.
+    intros s. unfold RenderStack.rrender, RenderStack.rpkgs_render.
+    destruct s; cbn [RenderStack.risnil_of]; try apply regs_ok_ret; try apply rfrag_regs;
+      match goal with |- regs_ok (if ?b then _ else _) _ => destruct b; [apply regs_ok_ret|apply rfrag_regs] end.
+  Qed.
+
+  Theorem rrender_all_regs : forall l, regs_ok (rrender_all l) (flat_map rpkgs_render l).
+  Proof.
+    induction l as [|s r IH]; [apply regs_ok_ret|]. cbn [RenderStack.rrender_all flat_map].
+    apply regs_ok_emitr; [apply rrender_regs|exact IH].
+  Qed.
+End Regs.
